@@ -172,7 +172,7 @@ impl Unreal2State {
         for _ in 0 .. nr {
             let key = match t.draw(DATA, 6) {
                 0 => UStr::plain("Mutator"),
-                1 => UStr::plain("mutator"),
+                1 => UStr::plain(*t.pick(DATA, &["mutator", "MUTATOR", "MutatoR", "mUTATOR"])),
                 2 => UStr::plain("GamePassword"),
                 3 => UStr::plain("RepeatedKey"),
                 _ => {
